@@ -242,7 +242,6 @@ func (pdb *pgDb) ensureTable(ctx context.Context) error {
 	}
 	tx, err := pdb.conn.BeginTx(ctx, defaultTxOptions)
 	if err != nil {
-		tx.Rollback(ctx)
 		return err
 	}
 	query := fmt.Sprintf(`CREATE TABLE IF NOT EXISTS %s.kv_vise (
